@@ -104,6 +104,11 @@ func (c *Ctx) analyseBuf(rule string, fn *ssa.Function, pi int, regionIn region,
 						// own output only
 					}
 				}
+				if reg[x.Val] != rNone {
+					if g := rootGlobal(x.Addr); g != nil {
+						c.add("violated", rule, fn, x.Pos(), "a slice of the caller's buffer is retained in package-level "+g.Name()+" beyond the call: later calls read or overwrite memory the caller owns")
+					}
+				}
 			case *ssa.Slice:
 				if reg[x.X] == rPrefix && x.High != nil && regionIn == rPrefix {
 					c.add("violated", rule, fn, x.Pos(), "truncating re-slice of the caller's buffer")
@@ -439,4 +444,21 @@ func isLenOfBuf(v ssa.Value, param ssa.Value) bool {
 		}
 	}
 	return false
+}
+
+// rootGlobal: addr is a package-level variable or a field/element address inside one.
+func rootGlobal(addr ssa.Value) *ssa.Global {
+	for i := 0; i < 8; i++ {
+		switch a := addr.(type) {
+		case *ssa.Global:
+			return a
+		case *ssa.FieldAddr:
+			addr = a.X
+		case *ssa.IndexAddr:
+			addr = a.X
+		default:
+			return nil
+		}
+	}
+	return nil
 }
